@@ -25,6 +25,22 @@ CHECKS = {
    text="Seeded search over session histories Load; (Edit*; Save; [Environment]; Reload)^k through the simulated file system, under a controlled hash seed, read-chunking schedule and (separate configuration) injected I/O faults; oracles: reload succeeds, model equality, byte fixpoint, hash-seed independence, file = text. Sampling over generated documents and histories; clean batches are evidence, not proof.",
    note="Trusted: frozen grammar table and document generator (validated against the unchanged tree: every generated document strict-loads without diagnostics); the crate's own PartialEq as the meaning of 'equal'; VFS models whole-file POSIX semantics only.",
    tech="deterministic simulation: seeded save/reload histories over an in-memory VFS with fault injection and controlled hash-iteration order"),
+ "C03": dict(cat="fault_enumeration", ref="DESIGN.md 4.2",
+   text="Valid generated documents damaged by storage faults and read by every entry point in every configuration: per document every truncation point (every crash point of a writer) and every single-token deletion / duplication / swap are enumerated, plus seeded multi-fault runs with byte-granular regions on UTF-8/16/32 files under read chunking and I/O faults. Oracle: the call returns; no panic, no overflow, fuel not exhausted. Exhaustive only relative to each generated document; documents are sampled.",
+   note="Fault model = closure of valid documents under the fault operators (not arbitrary byte strings). Hang detection trusts the fuel tick sites added under cfg(a2lfile_verif); overflow detection relies on overflow-checks = true in the simulator build profile.",
+   tech="deterministic simulation with storage-fault enumeration (torn writes at every byte, token-level and byte-level corruption) and fuel-based hang detection"),
+ "C15": dict(cat="exploration", ref="DESIGN.md 4.4",
+   text="Seeded search over long edit histories {push, merge, sort_new_items (runs of up to 64 consecutive calls), write, reload} on a loaded model, with an order model checked against the written text after every step. The failure class depends on history length (state accumulates across calls); sampling over histories, not enumeration.",
+   note="History dimension only, no fault or schedule exists. Trusted: the independent text scanner that extracts the MODULE-level (kind, name) sequence; the order model leaves the mutual order of simultaneously inserted elements unconstrained.",
+   tech="deterministic simulation: seeded long operation histories vs. step-wise order model"),
+ "C16": dict(cat="fault_enumeration", ref="DESIGN.md 4.5",
+   text="Include trees (1..6 files, up to 3 deep, sub/parent directories, both name syntaxes and separators, absolute paths, decoys, A2ML-level includes, empty/comment-only/UTF-16 include files, cycles) in the simulated file system; reference model = the flattened text. After the fault-free oracles (transparent load, write+reload, merge_includes) the recorded file-system call sequence of the load is re-run once for every (call, applicable fault kind) pair, then with seeded double faults. Exhaustive single-fault enumeration per scenario; scenarios are sampled.",
+   note="VFS models open/fstat/read/stat/whole-file write with lexical path normalisation; symlinks, permissions on parent directories and Windows path rules are not modelled. Diagnostics compared by class.",
+   tech="deterministic simulation: in-memory VFS, exhaustive single-fault injection over the recorded call trace, flattened-text reference model"),
+ "C17": dict(cat="exploration", ref="DESIGN.md 4.6",
+   text="Encoded files (10 encodings + Latin-1, every length residue mod 4, non-ASCII and non-BMP content) in the simulated file system, read under adversarial chunking, EINTR, short reads and fstat size lies; reference = load_from_string of the decoded text; plus storage faults on the encoded bytes for totality. Sampling over documents x encodings x read schedules.",
+   note="Trusted: the harness encoder (UTF-8/16/32, Latin-1) and the document generator. First character of every document is ASCII, as the format requires.",
+   tech="deterministic simulation: read-path schedules and benign I/O faults over an in-memory VFS, decoded-string reference model"),
  "C13": dict(cat="exploration", ref="DESIGN.md 4.3",
    text="Seeded search over operation histories on the real ItemList with a vector reference model consulted after every step, minimisation and exact replay. Sampling, not enumeration: the exhaustive length<=6 enumeration the property text mentions is model checking and deliberately not done.",
    note="History dimension only (ItemList has no I/O and a fixed hash). Trusted: the Vec model with Vec::swap_remove semantics; names unique at every instant.",
